@@ -1,0 +1,91 @@
+package server
+
+import (
+	"os"
+	"strings"
+
+	"go.lsp.dev/protocol"
+
+	"github.com/juev/hledger-lsp/internal/ast"
+	"github.com/juev/hledger-lsp/internal/lsputil"
+)
+
+// columnMapper converts between the positions of a syntax tree and the LSP positions of the
+// text it was parsed from. The parser counts columns in runes, LSP counts characters in
+// UTF-16 code units: the two differ after every character outside the Basic Multilingual
+// Plane (emoji, for one), which takes two units.
+type columnMapper struct {
+	lines []string
+}
+
+func newColumnMapper(content string) *columnMapper {
+	return &columnMapper{lines: strings.Split(content, "\n")}
+}
+
+// lineColumn converts a position of the syntax tree (1-based line, 1-based rune column).
+// Without the text of the line the column is passed on unchanged.
+func (m *columnMapper) lineColumn(line, column int) protocol.Position {
+	character := column - 1
+	if i := line - 1; i >= 0 && i < len(m.lines) {
+		character = lsputil.RuneOffsetToUTF16(m.lines[i], character)
+	}
+	return protocol.Position{Line: uint32(line - 1), Character: uint32(character)}
+}
+
+func (m *columnMapper) position(p ast.Position) protocol.Position {
+	return m.lineColumn(p.Line, p.Column)
+}
+
+func (m *columnMapper) toProtocol(rng ast.Range) *protocol.Range {
+	return &protocol.Range{Start: m.position(rng.Start), End: m.position(rng.End)}
+}
+
+// runePosition returns pos with its character counted in runes, the unit of the columns of
+// the syntax tree, so that it can be compared with them (see positionInRange).
+func (m *columnMapper) runePosition(pos protocol.Position) protocol.Position {
+	if i := int(pos.Line); i < len(m.lines) {
+		pos.Character = uint32(lsputil.UTF16OffsetToRuneOffset(m.lines[i], int(pos.Character)))
+	}
+	return pos
+}
+
+// fileMappers hands out the column mapper of every file a cross-file answer refers to: the
+// texts given by path (buffers), any other file as read from disk.
+type fileMappers struct {
+	buffers map[string]string
+	mappers map[string]*columnMapper
+}
+
+func newFileMappers(buffers map[string]string) *fileMappers {
+	return &fileMappers{buffers: buffers, mappers: make(map[string]*columnMapper)}
+}
+
+// openFileMappers takes the buffer of every open document.
+func (s *Server) openFileMappers() *fileMappers {
+	buffers := make(map[string]string)
+	s.documents.Range(func(key, value any) bool {
+		docURI, ok := key.(protocol.DocumentURI)
+		content, isText := value.(string)
+		if ok && isText {
+			if path := uriToPath(docURI); path != "" {
+				buffers[path] = content
+			}
+		}
+		return true
+	})
+	return newFileMappers(buffers)
+}
+
+func (f *fileMappers) get(path string) *columnMapper {
+	if m, ok := f.mappers[path]; ok {
+		return m
+	}
+	m := &columnMapper{}
+	if content, ok := f.buffers[path]; ok {
+		m = newColumnMapper(content)
+	} else if data, err := os.ReadFile(path); err == nil {
+		m = newColumnMapper(string(data))
+	}
+	f.mappers[path] = m
+	return m
+}
